@@ -421,6 +421,7 @@ def correspondence(ctx, profile, n_cases, extra_cases=()):
     it = iter(models)
     replays = []
     inconclusive = []
+    unconfirmed = []
     for case, r in zip(cases, runs):
         if "harness_error" in r:
             mism.append((case, r, {"kind": "harness_error", "detail": r.get("tb", r["harness_error"])[-1500:]}))
@@ -459,13 +460,17 @@ def correspondence(ctx, profile, n_cases, extra_cases=()):
             if d2:
                 d2["confirmed_by_replay"] = True
                 mism.append((case, rr, d2))
+            elif d.get("kind") in ("late", "snap"):
+                unconfirmed.append({"first_run": d, "events": len(r["events"])})
             for o in oracle(rr):
                 if len(o) == 3 and o[2] == "timing":
                     orc.append((case, rr, o[:2]))
     stats = {"events": sum(len(r.get("events", [])) for r in runs),
              "calls": sum(1 for r in runs for e in r.get("events", []) if e[0] == "call"),
              "event_kinds": {}, "outcomes": {}, "replayed_for_timing": len(replays),
-             "inconclusive_spontaneous_timeouts": len(inconclusive)}
+             "inconclusive_spontaneous_timeouts": len(inconclusive),
+             "timing_disagreements_not_confirmed_by_slow_replay": len(unconfirmed),
+             "timing_disagreements_not_confirmed_sample": unconfirmed[:2]}
     for r in runs:
         for e in r.get("events", []):
             stats["event_kinds"][e[0]] = stats["event_kinds"].get(e[0], 0) + 1
